@@ -217,11 +217,16 @@ func (s *Log) Nice(o TickOptions) {
 		return
 	}
 	firstN, lastN, base := s.spacingAtLevel(level, true)
+	if math.IsInf(base, 0) {
+		// The only level with few enough ticks has a base
+		// that overflows; leave the domain alone.
+		return
+	}
 	min, max := math.Pow(base, firstN), math.Pow(base, lastN)
 	if neg {
 		min, max = -max, -min
 	}
-	if math.IsNaN(min) || math.IsInf(min, 0) || math.IsNaN(max) || math.IsInf(max, 0) || min > s.Min || max < s.Max {
+	if math.IsNaN(min) || math.IsInf(min, 0) || math.IsNaN(max) || math.IsInf(max, 0) {
 		return
 	}
 	s.Min, s.Max = min, max
